@@ -1154,6 +1154,50 @@ func childReq(engine string, seed uint64, count int, logPath, scratch string) {
 			wr(logLine{I: -2, Phase: "cancel", ClientCancel: clientCancel, Canceled: ws.canceledFor(id)})
 		}
 	}
+	// a cancel request for an id that was never created, and a second cancel request for a watch that has been
+	// cancelled already: no response to either, and the stream stays usable (a later create is answered)
+	{
+		c, cancel := context.WithCancel(ctx)
+		ws := &etcdWatchStream{fakeStream: fakeStream{c}, in: make(chan *etcdserverpb.WatchRequest, 8)}
+		done := make(chan struct{})
+		go func() {
+			defer func() { _ = recover() }()
+			_ = n.es.Watch(ws)
+			close(done)
+		}()
+		mkCancel := func(id int64) *etcdserverpb.WatchRequest {
+			return &etcdserverpb.WatchRequest{RequestUnion: &etcdserverpb.WatchRequest_CancelRequest{CancelRequest: &etcdserverpb.WatchCancelRequest{WatchId: id}}}
+		}
+		mkCreate := func() *etcdserverpb.WatchRequest {
+			return &etcdserverpb.WatchRequest{RequestUnion: &etcdserverpb.WatchRequest_CreateRequest{CreateRequest: &etcdserverpb.WatchCreateRequest{Key: []byte("/registry/")}}}
+		}
+		const unknownID = 987654321
+		ws.in <- mkCancel(unknownID)
+		ws.in <- mkCreate()
+		var id int64
+		okID := lib.WaitUntil(3*time.Second, func() bool { var ok bool; id, ok = ws.createdID(); return ok })
+		extra := 0
+		usable := false
+		if okID {
+			ws.in <- mkCancel(id)
+			lib.WaitUntil(2*time.Second, func() bool { return ws.canceledFor(id) >= 1 })
+			ws.in <- mkCancel(id) // already cancelled
+			time.Sleep(40 * time.Millisecond)
+			if n := ws.canceledFor(id); n > 1 {
+				extra = n - 1
+			}
+			ws.in <- mkCreate()
+			usable = lib.WaitUntil(3*time.Second, func() bool { ws.mu.Lock(); defer ws.mu.Unlock(); return len(ws.created) >= 2 })
+		}
+		responses := ws.canceledFor(unknownID) + extra
+		close(ws.in)
+		select {
+		case <-done:
+		case <-time.After(5 * time.Second):
+		}
+		cancel()
+		wr(logLine{I: -3, Phase: "cancel-unknown", Canceled: responses, ClientCancel: usable})
+	}
 	if p2, ok2, prog2 := probe(); ok2 && prog2 {
 		last = p2
 	}
@@ -1735,6 +1779,13 @@ func main() {
 						"canceled_responses_with_compact_revision_0": l.Canceled}, Outcomes: []string{oc}})
 				continue
 			}
+			if l.Phase == "cancel-unknown" {
+				w.Add(lib.Case{Kind: "watch-cancel-unknown", Coq: lib.App("KCancelUnknown", lib.N(uint64(l.Canceled)), lib.Bool(l.ClientCancel)),
+					JSON: map[string]interface{}{"engine": eng, "api": "etcd.Watch", "sequence": "on one stream: WatchCancelRequest{watch_id: 987654321 (never created)} ; WatchCreateRequest{key:/registry/} ; WatchCancelRequest{id} ; WatchCancelRequest{id} again ; WatchCreateRequest{key:/registry/}",
+						"canceled_responses_to_the_unknown_and_the_repeated_cancel": l.Canceled, "second_create_answered": l.ClientCancel},
+					Outcomes: []string{fmt.Sprintf("cancel-unknown-responses-%d", l.Canceled)}})
+				continue
+			}
 			if l.Phase == "start" {
 				starts[l.I] = l
 				order = append(order, l.I)
@@ -1848,10 +1899,7 @@ func main() {
 					noise = append(noise, l)
 				}
 			}
-			code := 0
-			if strings.Contains(stderr.String(), "close of closed channel") && strings.Contains(stderr.String(), "watchGrpcStream") {
-				code = 1 // finding C20-F1: the duplicate Canceled response panics the etcd client inside the follower's proxy
-			}
+			code := 0 // every death of the follower child is a violation (C20-F1, the duplicate cancel response, is fixed)
 			w.Fail(lib.ImplFailure{CaseID: -1, Code: code, What: fmt.Sprintf("a follower node with the etcd proxy enabled died after %d rounds of {WatchCreateRequest, WatchCancelRequest, forwarded Txn} from a client (%v)", iters, runErr),
 				Case: map[string]interface{}{"sequence": "per round, on a new stream to the follower: WatchCreateRequest{key:/registry/} ; WatchCancelRequest{watch_id: the id just created} ; end of stream; plus one generated Txn and every 8th round a Range", "rounds": iters,
 					"stderr_tail": tail(strings.Join(noise, "\n"), 3000)}})
